@@ -34,6 +34,7 @@ def stress_cases(tier):
     kinds = [("subject", 3), ("merge", 3), ("zip", 2), ("combine_latest", 2), ("take_until", 2), ("merge_all", 3), ("share", 3)]
     cases = [("x%d" % i, "(case x%d conc %s %d %d %d)" % (i, k, p, items, rounds), {"kind": "threads", "pipe": k}) for i, (k, p) in enumerate(kinds)]
     cases.append(("x99", "(case x99 sched_race %d)" % (10 if tier == "quick" else 60), {"kind": "threads", "pipe": "task-handle"}))
+    cases.append(("x98", "(case x98 unsub_race %d)" % (10 if tier == "quick" else 60), {"kind": "threads", "pipe": "subscribe_on-pool"}))
     return cases
 
 
